@@ -823,6 +823,18 @@ impl<'a, 'ast> Visit<'ast> for Rules<'a> {
                 self.handle_macro(&m.mac, mr);
                 return;
             }
+            syn::Stmt::Expr(syn::Expr::MethodCall(mc), Some(_))
+                if (mc.method == "unwrap" && mc.args.is_empty()) || (mc.method == "expect" && mc.args.len() == 1) =>
+            {
+                // R16s: `E.unwrap();` as a statement (value discarded) only says "E must have succeeded": it becomes
+                // `must_hold(E);` whose contract is `requires ok, ensures ok` -- the obligation stays exactly where it
+                // was, and what follows is checked for the case in which execution gets that far (a panic does not return)
+                let whole = self.r(mc.span());
+                let recv = self.src_part(mc.receiver.span());
+                self.push("R16", whole, vec![lit("must_hold("), recv, lit(")")]);
+                self.visit_expr(&mc.receiver);
+                return;
+            }
             syn::Stmt::Expr(syn::Expr::MethodCall(mc), Some(_)) if mc.method == "drain" && mc.args.len() == 1 => {
                 if let syn::Expr::Range(rg) = &mc.args[0] {
                     let zero = rg.start.is_none() || matches!(rg.start.as_deref(), Some(syn::Expr::Lit(syn::ExprLit { lit: syn::Lit::Int(i), .. })) if i.base10_digits() == "0");
